@@ -299,7 +299,7 @@ func (a *assembly) exchange(raw string) (string, error) {
 	select {
 	case r := <-done:
 		return string(r.b), nil
-	case <-time.After(20 * time.Second):
+	case <-time.After(120 * time.Second):
 		return "", errors.New("no answer and connection still open")
 	}
 }
@@ -709,7 +709,7 @@ func runGRPCMenu(c *engine.Ctx, onlyName string) {
 		select {
 		case r := <-done:
 			return r.r, r.err, true
-		case <-time.After(20 * time.Second):
+		case <-time.After(120 * time.Second):
 			return nil, nil, false
 		}
 	}
